@@ -22,6 +22,7 @@ CHECKS = {
  'C23': (MC, "writer.string on strings of 0..2 (thorough 0..3) fully symbolic code points (0..0x10FFFF incl. lone surrogates); the produced literal is lexed by a Java unicode-escape + string-escape reference inside the same symbolic run and compared as UTF-16 code units", '5/C23', 'symbolic execution over symbolic strings with %x expanded to symbolic digits'),
  'C24': (MC, "decompiler.util.get_type and core.dex.get_type on class descriptors whose 1..13 (thorough 16) body characters are symbolic (any BMP character, '/' as separator), 0..2 array dimensions, all primitives", '5/C24', 'symbolic execution over symbolic strings (SStr, SymDict)'),
  'C38': (MC, "clean_file_name with every character symbolic for lengths 0..4 (thorough 0..6) and symbolic windows (prefix, cut region, tail) for lengths 229..600, unique on/off, first two isfile() answers arbitrary; the five clauses of the property on the returned symbolic string", '5/C38', 'symbolic execution with symbolic regex (SymRe), path model and arbitrary isfile predicate'),
+ 'C35': (MC, "unwinding assertions (iterations <= N+2, N/128+3 for the chunked reader) on the input-driven loops of read_null_terminated_string, DebugInfoItem, HiddenApiClassDataItem, EncodedArray/Annotation/CatchHandlerList, ARSCHeader and parse_signatures_or_digests, each driven on 3..260 fully symbolic bytes; whole-file parses are outside", '5/C35', 'bounded model checking with unwinding assertions via symbolic execution'),
  'C37': (MC, "the real export_apps_to_format run with recording os/open stubs: class body of 1..5 (thorough 6) and method name of 1..4 (thorough 5) fully symbolic characters; every created path must stay under the output directory by a segment walk", '5/C37', 'symbolic execution over symbolic strings with a recording filesystem stub'),
  'C34': (MC, "PARTIAL: get_dex_names / is_multidex / get_all_dex selection with get_files() stubbed: one fully symbolic entry name of 0..14 (thorough 16) characters next to fixed entries, plus the regex literals of the real functions compared with classes[0-9]*\\.dex over unbounded strings by z3's regex theory. Archive reading (apkInspector, zlib) is outside the claim", '5/C34', 'symbolic regex execution + z3 sequence/regex theory language inclusion'),
  'C39': (MC, "load_api_specific_resource_module / load_permissions / load_permission_mappings with the API level symbolic: every integer up to +-2^100 and canonical decimal strings of up to 3 digits (and negatives); isfile answers derived from the shipped level lists; the opened level is compared with the documented rule", '5/C39', 'symbolic execution with format markers / symbolic strings and a filesystem stub'),
